@@ -465,6 +465,14 @@ pub fn arb_dec() -> BoxedStrategy<Dec> {
             ("179769313486231570814527423731704356798070567525844996598917476803157260780028538760589558632766878171540458953514382464234321326889464182768467546703537516986049910576551282076245490090389328944075868508455133942304583236903222948165808559332123348274797826204144723168738177180919299881250404026184124858368", 0),
         ]).prop_map(|(d, e)| Dec { neg: false, digits: d.to_string(), exp: e }),
         1 => ("[1-9][0-9]{0,5}", 0i32..300).prop_map(|(d, e)| Dec { neg: false, digits: d, exp: e }),
+        // literals of 700..2000 characters (a digit buffer of any fixed size is exceeded): a late
+        // digit that decides the rounding, a long run of zeros before an exponent, a long integer
+        1 => (700usize..2000, 0u8..4, any::<bool>()).prop_map(|(n, k, neg)| match k {
+            0 => Dec { neg, digits: format!("1{}1", "0".repeat(n)), exp: -(n as i32 + 1) },
+            1 => Dec { neg, digits: format!("1{}", "0".repeat(n)), exp: -(n as i32) + 2 },
+            2 => Dec { neg, digits: format!("10000000000000001110223024625156540423631668090820312{}1", "0".repeat(n)), exp: -(n as i32 + 53) },
+            _ => Dec { neg, digits: format!("{}7", "123456789".repeat(n / 9)), exp: -((n / 9 * 9) as i32) + 5 },
+        }),
     ]
     .boxed()
 }
